@@ -1,22 +1,9 @@
-use pvmc::ast::*;
-use pvmc::run::run_query;
+use proto_vulcan::prelude::*;
 fn main() {
-    pvmc::run::install_quiet_panic_hook();
-    let x = T::V(0);
-    let y = T::V(1);
-    let z = T::V(2);
-    let dom = G::InFd(vec![x.clone(), y.clone(), z.clone()], Dom::Range(0, 3));
-    let dist = G::DistinctFd(T::list(vec![x.clone(), y.clone(), z.clone()]));
-    let progs = vec![
-        Program { nq: 3, body: vec![G::PlusZ(x.clone(), y.clone(), z.clone()), G::Fd(FdKind::Lt, vec![x.clone(), y.clone()]), dom.clone(), dist.clone()] },
-        Program { nq: 3, body: vec![G::PlusZ(x.clone(), y.clone(), z.clone()), G::Conde(vec![vec![G::Fail], vec![G::Fd(FdKind::Lt, vec![x.clone(), y.clone()])]]), dom.clone(), dist.clone()] },
-        Program { nq: 3, body: vec![G::PlusZ(x.clone(), y.clone(), z.clone()), dom.clone()] },
-        Program { nq: 3, body: vec![dom.clone(), G::PlusZ(x.clone(), y.clone(), z.clone())] },
-    ];
-    for p in progs {
-        for _ in 0..4 {
-            let out = run_query(3, &p, 100, 100000);
-            println!("{} => {:?} {:?}", p, out.answers.iter().map(|a| a.to_string()).collect::<Vec<_>>(), out.end);
-        }
-    }
+    let q1 = proto_vulcan_query!(|x| { conde { |z| { |w| { w == z, z == 1, x == w } }, [|u| { |v| { v == u, u == 2, x == v } }] } });
+    let q2 = proto_vulcan_query!(|x| { conde { [|_a| { |_b| { _b == _a, _a == 1, x == _b } }], |c| { |d| { d == c, c == 2, x == d } } } });
+    let q3 = proto_vulcan_query!(|x| { conde { |a| { |b| { b == a, a == 1, x == b } }, |_c| { |_d| { _d == _c, _c == 2, x == _d } } } });
+    println!("{:?}", q1.run().map(|r| format!("{}", r.x)).collect::<Vec<_>>());
+    println!("{:?}", q2.run().map(|r| format!("{}", r.x)).collect::<Vec<_>>());
+    println!("{:?}", q3.run().map(|r| format!("{}", r.x)).collect::<Vec<_>>());
 }
